@@ -31,6 +31,8 @@ MANIFEST = {
     'technique': 'Rocq/Coq proof over a Gallina model of the whole argument lattice + extraction-based correspondence',
 }
 BUDGET = {'quick': 70, 'thorough': 1500}
+ESCALATE_BUDGET = 150     # source of make_trapezoid edited: thorough-size correspondence, time-boxed
+SEARCH_BUDGET = 120
 MISMATCH_BUDGET = 0.0
 BENIGN_BUDGET = 0.002
 RULE = ('calls drawn from the seven supported argument sets (area; area+duration; area+duration+rise[/fall]; '
@@ -39,7 +41,8 @@ RULE = ('calls drawn from the seven supported argument sets (area; area+duration
         'mT/m, Hz/m, rad/ms/mm; max_slew in T/m/s, mT/m/ms, Hz/m/s, rad/ms/mm/ms; raster 4/5/10/20 us) x optional '
         'delay and max_grad/max_slew overrides, area regimes triangle / near the regime boundary / plateau; an invalid '
         'stream (missing or conflicting arguments, too short durations, beyond amplitude or slew limits, zero or '
-        'negative times, bad channel) where the exception class must equal the model\'s; a threshold stream '
+        'negative rise / fall / flat times and durations on every path, bad channel) where the exception class '
+        'must equal the model\'s; a threshold stream '
         '(exactly minimal duration, exactly at a limit) that is oracle-only; and a fixed corpus incl. thresholds whose '
         'float arithmetic is exact.  distinct = distinct calls; non-trivial = the call returned an event or raised '
         'one of the modelled exception classes other than the argument-presence ones')
@@ -50,7 +53,7 @@ ASSUMPTIONS = ['the model decides comparisons on exact rationals; generated valu
                '>= 2 % from every decision threshold, threshold cases are checked by the oracle only',
                'area-only calls with rise_time/fall_time given: the code documents (warning) that they are ignored; '
                'the oracle does not demand them back',
-               'requests with negative or zero times are compared with the model only (no oracle clause applies)']
+               'a ramp time given as 0 is falsy in `rise_time or fall_time` and counts as not given']
 
 GAMMA = 42576000.0
 ARGS = ['amplitude', 'area', 'delay', 'duration', 'fall_time', 'flat_area', 'flat_time', 'max_grad', 'max_slew',
@@ -273,7 +276,7 @@ INVALID_KINDS = ['none_given', 'area+amplitude', 'flat_area+amplitude', 'area+fl
                  'amplitude+dur+flat', 'channel', 'area_dur_short', 'area_dur_le_rise', 'area_dur_between',
                  'amp_dur_short', 'amp_dur_short', 'amp_beyond', 'slew_rise_beyond', 'slew_fall_beyond',
                  'area_beyond_grad', 'area_beyond_slew', 'flat_area_beyond', 'zero_ramps', 'zero_rise_only',
-                 'negative_time', 'area_dur_flat']
+                 'negative_time', 'negative_time', 'negative_time', 'flat_area_no_flat_ramps', 'area_dur_flat']
 
 
 def gen_invalid(rng, kind=None):
@@ -284,7 +287,7 @@ def gen_invalid(rng, kind=None):
     kind = kind or rng.choice(INVALID_KINDS)
     a = new_args()
     a['max_grad'], a['max_slew'] = og, osl
-    case = {'kind': 'inv.' + kind, 'sys': s, 'args': a, 'channel': 'x', 'threshold': False, 'garbage': False}
+    case = {'kind': 'inv.' + kind, 'sys': s, 'args': a, 'channel': 'x', 'threshold': False}
     sgn = rng.choice([1, -1])
     val = lambda: sgn * sig(rng.uniform(0.01, 0.9) * G * 20 * R, 6)      # some feasible area
     dur = lambda: tm(rng.randint(10, 400) * R)
@@ -409,44 +412,64 @@ def gen_invalid(rng, kind=None):
         a['flat_time'] = flat
         a['flat_area'] = sgn * sig(G * rng.uniform(1.03, 2) * flat, 6)
     elif kind == 'zero_ramps':
+        # rise_time = fall_time = 0 survive the `or` defaults and must be rejected by the timing check
         a['rise_time'], a['fall_time'] = 0.0, 0.0
-        which = rng.choice(['amp', 'area', 'fa'])
-        a['flat_time'] = dur()
+        which = rng.choice(['amp', 'area', 'fa', 'amp_dur', 'area_dur'])
+        ft = dur()
         if which == 'amp':
-            a['amplitude'] = sgn * sig(0.5 * G)
+            a['amplitude'], a['flat_time'] = sgn * sig(0.5 * G), ft
         elif which == 'area':
-            a['area'] = sgn * sig(0.3 * G * a['flat_time'])
+            a['area'], a['flat_time'] = sgn * sig(0.3 * G * ft), ft
+        elif which == 'fa':
+            a['flat_area'], a['flat_time'] = sgn * sig(0.3 * G * ft), ft
+        elif which == 'amp_dur':
+            a['amplitude'], a['duration'] = sgn * sig(0.5 * G), ft
         else:
-            a['flat_area'] = sgn * sig(0.3 * G * a['flat_time'])
-        case['garbage'] = True
+            a['area'], a['duration'] = sgn * sig(0.3 * G * ft), ft
     elif kind == 'zero_rise_only':
         # 0 is falsy: `rise_time or fall_time` treats it as not given
         a['rise_time'] = 0.0
         a['fall_time'] = rng.choice([None, None, ramp()])
         a['amplitude'], a['flat_time'] = sgn * sig(rng.uniform(0.05, 0.9) * min(G, S * 2 * R), 6), dur()
-        case['garbage'] = True
     elif kind == 'negative_time':
-        which = rng.choice(['flat', 'rise', 'duration', 'fall'])
-        a['amplitude'] = sgn * sig(0.3 * G)
-        a['rise_time'] = tm(math.ceil(0.3 * G / S / R + 1) * R)
-        if which == 'flat':
-            a['flat_time'] = -dur()
-        elif which == 'rise':
-            a['rise_time'] = -a['rise_time']
-            a['flat_time'] = dur()
+        # user-supplied negative (or zero) times on every path: the error class must match the model
+        carrier = rng.choice(['amp_flat', 'amp_dur', 'area_flat', 'area_dur', 'fa_flat'])
+        which = rng.choice(['flat', 'rise', 'fall', 'both', 'duration', 'fall_zero'])
+        h = rng.uniform(0.05, 0.5) * G
+        r = tm(math.ceil(h / S / R + 1 + rng.randint(0, 10)) * R)
+        f = rng.choice([None, r, tm(r + R * rng.randint(1, 5))])
+        ft = dur()
+        a['rise_time'], a['fall_time'] = r, f
+        if which == 'rise':
+            a['rise_time'] = -r
         elif which == 'fall':
-            a['fall_time'] = -a['rise_time']
-            a['flat_time'] = dur()
+            a['fall_time'] = -(f or r)
+        elif which == 'both':
+            a['rise_time'], a['fall_time'] = -r, -(f or r)
+        elif which == 'fall_zero':
+            a['fall_time'] = 0.0                 # falsy: replaced by rise_time, the call is valid
+        if carrier in ('amp_flat', 'area_flat', 'fa_flat'):
+            a['flat_time'] = -ft if which in ('flat', 'duration') else ft
         else:
-            a['duration'] = -dur()
-        case['garbage'] = True
+            a['duration'] = -ft if which in ('flat', 'duration') else tm(2 * r + (f or r) + ft)
+        if carrier.startswith('amp'):
+            a['amplitude'] = sgn * sig(h, 6)
+        elif carrier.startswith('area'):
+            a['area'] = sgn * sig(h * (r + ft), 6)
+        else:
+            a['flat_area'] = sgn * sig(h * ft, 6)
+    elif kind == 'flat_area_no_flat_ramps':
+        # flat_area without flat_time but with ramps: flat_time stays None and reaches the timing test
+        a['flat_area'] = val()
+        r = ramp()
+        a['rise_time'] = rng.choice([r, -r, r])
+        a['fall_time'] = rng.choice([None, r, -r, tm(r + R)])
     elif kind == 'area_dur_flat':
         # area + duration + flat_time + rise_time: the code takes the flat_time branch and ignores `duration`
         r = ramp()
         flat = dur()
         a['rise_time'], a['flat_time'], a['duration'] = r, flat, tm(2 * r + flat + rng.choice([0, 1, 5]) * R)
         a['area'] = sgn * sig(rng.uniform(0.05, 0.9) * min(G, S * r) * (r + flat), 6)
-        case['garbage'] = True
     return case
 
 
@@ -561,6 +584,18 @@ def corpus():
     c('x.override_grad', area=100.0, max_grad=1e5)
     c('x.override_both', area=-100.0, max_grad=2e6, max_slew=2e10)
     c('x.delay', area=10.0, delay=1.5e-4)
+    # non-positive ramps / negative flat time must be rejected (third repair of this round)
+    c('w.neg_flat', amplitude=1000.0, flat_time=-1e-4)
+    c('w.neg_flat_fa', flat_area=1.0, flat_time=-1e-3)
+    c('w.neg_flat_area', area=1.0, flat_time=-1e-4, rise_time=3e-4)
+    c('w.neg_rise', amplitude=1000.0, flat_time=1e-3, rise_time=-1e-4)
+    c('w.neg_fall', amplitude=1000.0, flat_time=1e-3, rise_time=1e-4, fall_time=-1e-4)
+    c('w.zero_ramps', amplitude=1000.0, flat_time=1e-3, rise_time=0.0, fall_time=0.0)
+    c('w.zero_rise_is_default', amplitude=1000.0, flat_time=1e-3, rise_time=0.0)
+    c('w.neg_rise_area_dur', area=1.0, duration=1e-3, rise_time=-1e-4)
+    c('w.fa_no_flat_rise', flat_area=1.0, rise_time=1e-4)
+    c('w.fa_no_flat_neg_rise', flat_area=1.0, rise_time=-1e-4)
+    c('w.fa_no_flat', flat_area=1.0)
     return cs
 
 
@@ -582,6 +617,7 @@ def classify(e):
         ('ValueError', 'Must supply `rise_time`', 'must_rise'),
         ('ValueError', 'too short for the given `amplitude`', 'dur_short_amp'),
         ('ValueError', 'Must supply area or duration', 'area_or_duration'),
+        ('ValueError', 'must be positive and `flat_time` must not be negative', 'timing'),
         ('ValueError', 'Refined amplitude', 'amp'),
         ('ValueError', 'for ramp up is larger', 'slew_rise'),
         ('ValueError', 'for ramp down is larger', 'slew_fall'),
@@ -675,8 +711,8 @@ def oracle(ctx, case, vals):
         n = round(q)
         if n < 0 or abs(q - n) > Fraction(max(n, 1), 10 ** 9):
             bad('raster', which='flat', value=flat, raster=R)
-    # flat time never negative (binary64 noise of an exactly triangular request: 1e-12 s)
-    if not (a['flat_time'] is not None and a['flat_time'] < 0) and flat < -Fraction(1, 10 ** 12):
+    # flat time never negative
+    if flat < 0:
         bad('flat-negative', flat_time=flat)
     # effective limits, up to the code's slack (eps = 1e-9 absolute on max_grad, relative on max_slew)
     if abs(amp) > G * (1 + Fraction(2, 10 ** 9)) + Fraction(2, 10 ** 9):
@@ -760,10 +796,7 @@ def process(ctx, cases):
         impls.append(r)
         fl = []
         if r[0] == 'OK':
-            if c.get('garbage'):
-                ctx.count('oracle.skipped_garbage')
-            else:
-                fl = oracle(ctx, c, r[1])
+            fl = oracle(ctx, c, r[1])
         ofails.append(fl)
         key = (c['channel'], tuple(sorted(c['sys'].items())), tuple(sorted((k, v) for k, v in c['args'].items())))
         nontrivial = r[0] == 'OK' or r[1] not in PRESENCE_CLASSES
@@ -824,7 +857,7 @@ def replay(ctx, case):
     r = impl_call(case)
     res = {'impl': r[0], 'impl_value': [float(v) for v in r[1]] if r[0] == 'OK' else r[1]}
     fl = []
-    if r[0] == 'OK' and not case.get('garbage'):
+    if r[0] == 'OK':
         fl = oracle(ctx, case, r[1])
     res['oracle_failed_clauses'] = fl
     if ctx.model_available and not case.get('threshold'):
